@@ -485,6 +485,7 @@ def _munu_stripe(ctx, stripe, pts=None, mu0=None):
     # the inverse is exercised on the (mu, nu) the forward transform returned and on (mu0, 0)
     ra_b, dec_b = _impl_m2r(stripe, mu, nu)
     ra0, dec0 = _impl_m2r(stripe, mu0, [0.0] * len(mu0)) if mu0 else (np.zeros(0), np.zeros(0))
+    _munu_shapes(ctx, stripe, ra, dec, mu, nu, ra_b, dec_b)
     s = float(stripe)
     ans = core.driver([
         {'p': 'C18', 'op': 'r2m', 'pts': _fb([[s, a, b] for a, b in zip(ra, dec)])},
@@ -511,6 +512,44 @@ def _munu_stripe(ctx, stripe, pts=None, mu0=None):
             ctx.disagree('m2r', c, [float(ra0[k]), float(dec0[k])], mm)
     return (stripe, ra, dec, [float(x) for x in mu], [float(x) for x in nu], [float(x) for x in ra_b], [float(x) for x in dec_b],
             mu0, [float(x) for x in ra0], [float(x) for x in dec0])
+
+
+def _munu_shapes(ctx, stripe, ra, dec, mu, nu, ra_b, dec_b):
+    """the transform of a point does not depend on the shape of the coordinate arrays it arrives in ("all sky positions":
+    scalars, vectors, 2-D grids - a (3, k) grid included, whose first dimension looks like a Cartesian axis)"""
+    from astropy import units as u
+    from astropy.coordinates import ICRS
+    from pydl.pydlutils.coord import SDSSMuNu
+    n = len(ra)
+    for shape in ((3, n // 3), (n // 2, 2), (1, min(n, 4))) if n >= 6 else ():
+        k = shape[0] * shape[1]
+        if k == 0:
+            continue
+        c = {'stream': 'munu', 'stripe': stripe, 'pts': [[ra[i], dec[i]] for i in range(min(k, 6))], 'mu0': [], 'shape': list(shape)}
+        try:
+            A, D = np.array(ra[:k]).reshape(shape), np.array(dec[:k]).reshape(shape)
+            m = ICRS(ra=A * u.deg, dec=D * u.deg).transform_to(SDSSMuNu(stripe=stripe))
+            r = SDSSMuNu(mu=np.array(mu[:k]).reshape(shape) * u.deg, nu=np.array(nu[:k]).reshape(shape) * u.deg, stripe=stripe).transform_to(ICRS())
+            got = (np.asarray(m.mu.deg), np.asarray(m.nu.deg), np.asarray(r.ra.deg), np.asarray(r.dec.deg))
+        except Exception as e:
+            ctx.violate('munu:shape-exception', 'transform of a %s grid of positions raises %s: %s' % (shape, type(e).__name__, str(e)[:100]), c)
+            continue
+        ctx.count('munu:grid-shape:%dx%d' % shape if shape[0] in (1, 3) else 'munu:grid-shape:kx2')
+        want = (np.asarray(mu[:k]), np.asarray(nu[:k]), np.asarray(ra_b[:k]), np.asarray(dec_b[:k]))
+        for g, w, name in zip(got, want, ('mu', 'nu', 'ra', 'dec')):
+            if g.shape != shape or not np.array_equal(g.ravel(), w, equal_nan=True):
+                ctx.violate('munu:shape-dependence', '%s of a %s grid differs from the same points passed as a vector' % (name, shape), c)
+                break
+    if n >= 1:
+        try:
+            m = ICRS(ra=float(ra[0]) * u.deg, dec=float(dec[0]) * u.deg).transform_to(SDSSMuNu(stripe=stripe))
+            if float(m.mu.deg) != float(mu[0]) or float(m.nu.deg) != float(nu[0]):
+                ctx.violate('munu:shape-dependence', 'scalar position gives (%r, %r), the same point in a vector (%r, %r)' % (
+                    float(m.mu.deg), float(m.nu.deg), float(mu[0]), float(nu[0])), {'stream': 'munu', 'stripe': stripe, 'pts': [[ra[0], dec[0]]], 'mu0': [], 'shape': []})
+            ctx.count('munu:grid-shape:scalar')
+        except Exception as e:
+            ctx.violate('munu:shape-exception', 'transform of a scalar position raises %s' % type(e).__name__,
+                        {'stream': 'munu', 'stripe': stripe, 'pts': [[ra[0], dec[0]]], 'mu0': [], 'shape': []})
 
 
 def _munu_inv_truth(job):
@@ -727,6 +766,25 @@ def _angles(ctx, only=None):
         except Exception as e:
             ctx.violate('angles:positional-latitude-exception', 'positional latitude argument raises %r' % (e,),
                         {'stream': 'angles', 'lat': lat, 'p': [list(q) for q in a[:3].tolist()]})
+        # "all angle arrays": single-precision arrays and the big-endian arrays a FITS table delivers hold the same angles
+        sub = np.concatenate([a[:200], np.array([[0.0, 90.0 if lat else 0.0], [123.0, -90.0 if lat else 180.0], [359.0, 0.0 if lat else 90.0]])])
+        for dt in ('>f8', '<f4', '>f4'):
+            cdt = {'stream': 'angles', 'lat': lat, 'p': [list(q) for q in sub[-3:].tolist()], 'dtype': dt}
+            try:
+                ad = sub.astype(dt)
+                ref = np.asarray(angles_to_x(np.asarray(ad, dtype='f8'), latitude=lat), dtype='f8')
+                xd = np.asarray(angles_to_x(ad, latitude=lat))
+                bd = np.asarray(x_to_angles(np.asarray(ref, dtype=dt), latitude=lat))
+                bref = np.asarray(x_to_angles(np.asarray(np.asarray(ref, dtype=dt), dtype='f8'), latitude=lat), dtype='f8')
+            except Exception as e:
+                ctx.violate('angles:dtype-exception', 'angles_to_x / x_to_angles refuse a %s array (poles included): %s %s' % (dt, type(e).__name__, str(e)[:80]), cdt)
+                continue
+            ctx.count('angles:dtype:' + dt)
+            tolx = 0.0 if dt == '>f8' else 2e-6
+            d1 = float(np.max(np.abs(xd.astype('f8') - ref))) if ref.size else 0.0
+            dpol = float(np.max(np.abs(bd.astype('f8')[:, 1] - bref[:, 1]))) if ref.size else 0.0
+            if d1 > tolx or xd.shape != ref.shape or dpol > (0.0 if dt == '>f8' else 0.05):
+                ctx.violate('angles:dtype-dependence', 'a %s array converts differently from the same angles in native float64 (max |dx| %.3g, |dtheta| %.3g)' % (dt, d1, dpol), cdt)
         # history: "all angle arrays" includes an array the caller refills in place and converts again - the answer belongs to
         # the present contents of the array, not to what the same object held at an earlier call
         if len(p) >= 4:
